@@ -17,7 +17,7 @@ import (
 func init() {
 	register(&run.Prop{
 		ID: "C18",
-		Rule: "case = one repetition of the concurrent workload inside a worker process built with the Go race detector (-race): G goroutines (16 or 64) start behind a barrier and each performs a shuffled list of ~42 different API calls (boolean ops, trees, open paths, offsets incl. ClipperOffset objects, rectangle clipping of polygons and lines, Minkowski, trim/simplify/area/point-in-polygon, D variants; each group also once on inputs of 200-400 vertices per path, e.g. Minkowski sweeps of > 1000 quads, so that size-dependent code paths run concurrently too) on read-only inputs SHARED by every third goroutine (3 input sets, goroutine g uses set g mod 3) and DISTINCT engine objects; half of the repetitions switch on the verif yield hook (runtime.Gosched every n-th loop tick) to diversify interleavings. " +
+		Rule: "case = one repetition of the concurrent workload inside a worker process built with the Go race detector (-race): G goroutines (16 or 64) start behind a barrier and each performs a shuffled list of ~45 different API calls (boolean ops, trees, open paths, offsets incl. ClipperOffset objects, rectangle clipping of polygons and lines, Minkowski, trim/simplify/area/point-in-polygon, D variants; each group also once on inputs of 200-400 vertices per path, e.g. Minkowski sweeps of > 1000 quads, so that size-dependent code paths run concurrently too; and once on rings written with repeated vertices) on read-only inputs SHARED by every third goroutine (3 input sets, goroutine g uses set g mod 3) and DISTINCT engine objects; half of the repetitions switch on the verif yield hook (runtime.Gosched every n-th loop tick) to diversify interleavings. " +
 			"Monitors: (1) the race detector (GORACE halt_on_error=0, reports counted from the log files by the parent; any report is a violation); (2) every concurrent call's output digest must equal the digest of the same call made sequentially before the goroutines start; (3) the shared inputs' digests before and after. " +
 			"Observed and reported: calls, overlapping call pairs (from monotonic timestamps), distinct overlapping API pairs. Non-trivial = a repetition in which >= 100 distinct API pairs overlapped in time; distinct by repetition id.",
 		Assumptions: []string{"the race detector only sees races that actually occur in an explored interleaving; it cannot prove their absence",
@@ -65,13 +65,24 @@ func c18Calls(r *gen.Rng) ([]apiCall, func() string) {
 	}
 	bigR := float64(gen.MaxAbs(bigS))
 	bigRect := clip.NewRect64(int64(-bigR/2), int64(-bigR/3), int64(bigR/2), int64(bigR/2))
+	// the same rings written with repeated vertices (every vertex twice, the closing vertex repeated): code that
+	// removes duplicates must not do so inside the caller's - here shared - slice
+	dup := make(Paths, len(nest))
+	for i, p := range nest {
+		for _, v := range p {
+			dup[i] = append(dup[i], v, v)
+		}
+		if len(p) > 0 {
+			dup[i] = append(dup[i], p[0])
+		}
+	}
 	sD, cD := toD(subj, 10), toD(clp, 10)
 	nD := toD(nest, 10)
 	pat := convexPoly(r, 30, 6, true)
 	rect := clip.NewRect64(-40, -30, 60, 55)
 	rectD := clip.NewRectD(-4, -3, 6, 5.5)
 	inputsDigest := func() string {
-		return run.Digest([]any{subj, clp, latS, latC, nest, open, bigS, bigC, sD, cD, nD, pat})
+		return run.Digest([]any{subj, clp, latS, latC, nest, open, bigS, bigC, sD, cD, nD, pat, dup})
 	}
 	d := func(v any) string { return run.Digest(v) }
 	calls := []apiCall{
@@ -178,6 +189,20 @@ func c18Calls(r *gen.Rng) ([]apiCall, func() string) {
 			o := clip.PathsD{}
 			c.ExecutePolyTree64(clip.Intersection, clip.NonZero, t, &o)
 			return d([]any{a, b, flattenTree(t.PolyPathBase)})
+		}},
+		{"InflatePaths64/dup", func() string { return d(clip.InflatePaths64(dup, 6, clip.Round, clip.Polygon)) }},
+		{"ClipperOffset/dup", func() string {
+			co := clip.NewClipperOffset(2, 0.25, false, false)
+			co.AddPaths(dup, clip.Miter, clip.Polygon)
+			co.AddPaths(dup[:1], clip.Square, clip.Joined)
+			a := Paths{}
+			co.Execute64(-4, &a)
+			return d(a)
+		}},
+		{"dup/misc", func() string {
+			return d([]any{clip.BooleanOpPaths64(clip.Union, dup, latS, clip.NonZero), clip.RectClipPaths64(clip.NewRect64(-300, -200, 250, 280), dup),
+				clip.SimplifyPaths64(dup, 2, true), clip.TrimCollinear64(dup[0], false), clip.StripDuplicates(dup[0], true), clip.MinkowskiSum64(pat, dup[0], true),
+				clip.InflatePathsD(toD(dup, 10), 0.7, clip.Square, clip.Polygon, clip.WithPrecision(1))})
 		}},
 		{"ScalePathsDToPaths64", func() string {
 			return d([]any{clip.ScalePathsDToPaths64(sD, 100), clip.ScalePaths64ToPathsD(subj, 0.01), clip.TrimCollinearD(sD[0], 1, false)})
